@@ -7,7 +7,7 @@
    forward header; witnesses below, replayed by corpus/C15/aa/f19_*.case) and proved for every history without an
    operation of `known_class`. *)
 From Coq Require Import List NArith ZArith Bool.
-From GQ Require Import Lib.Base Generated.Sources Model.AntiAmp Model.Burst Proofs.Burst Proofs.AntiAmp Proofs.AntiAmpRatio.
+From GQ Require Import Lib.Base Generated.Sources Model.AntiAmp Model.Burst Proofs.Burst Proofs.AntiAmp Proofs.AntiAmpRatio Proofs.AntiAmpRace.
 Import ListNotations.
 Local Open Scope N_scope.
 
@@ -90,6 +90,49 @@ Theorem c15_ratio_interleaved : forall y,
   gH y <= 3 * gR y /\ credit (sa y) <= 3 * gR y.
 Proof. exact p_c15_ratio_interleaved. Qed.
 
+(* one datagram = any number of coalesced packets written through ONE Constraints value, in flight or not (an ACK-only
+   packet is charged against the credit like any other): it stays within the credit its assembler read, unless it
+   carries an Initial packet and is padded to the whole buffer (class F19) *)
+Theorem c15_segment_within_credit : forall minpkt c buf r n,
+  load_segment minpkt (BSome c) buf r = SegOk n -> (sg_wi r = 0 \/ buf <= c) -> n <= c.
+Proof. exact p_c15_segment_within_credit. Qed.
+
+(* 50 bytes received; an ACK-only Handshake packet of 45 bytes followed by a 1-RTT packet: the datagram is cut at 150 *)
+Example c15_segment_nonvacuous :
+  load_segment 40 (BSome 150) 1200 (mksegp 100000 (mkpk 0 true) [mkpk 0 true; mkpk 45 false; mkpk 1200 true]) = SegOk 150.
+Proof. vm_compute. reflexivity. Qed.
+
+(* two calls racing on two threads, one atomic operation at a time (stream op RACE, run on the real methods through
+   the instrumented atomics): every race finishes with both calls returned ... *)
+Theorem c15_race_finishes : forall a ca cb sched,
+  let '(_, pa, pb, _, _) := race_calls a ca cb sched in pdone pa = true /\ pdone pb = true.
+Proof. exact p_c15_race_finishes. Qed.
+
+(* ... a call running alone is the composite operation of the sequential histories above ... *)
+Theorem c15_call_alone : forall a c,
+  fst (mrun_alone a c) = composite a c /\ pdone (snd (mrun_alone a c)) = true /\
+  (c = CBalance -> snd (mrun_alone a c) = PDone (RBal (snd (balance a)))).
+Proof. exact p_mrun_alone. Qed.
+
+(* ... and for EVERY schedule an arrival racing with a debit is one of the two sequential orders: neither the deposit
+   nor the debit is lost (on_rcvd and on_sent are each ONE read-modify-write of the credit) *)
+Theorem c15_race_rcvd_sent_linearizable : forall a n m sched,
+  let '(a', _, _, _, _) := race_calls a (CRcvd n) (CSent m) sched in
+  a' = on_sent (on_rcvd a n) m \/ a' = on_rcvd (on_sent a m) n.
+Proof. exact p_c15_race_rcvd_sent. Qed.
+
+Theorem c15_race_conserves : forall a n m sched,
+  st a = 0 -> m <= credit a -> credit a + 3 * n < W ->
+  let '(a', _, _, _, _) := race_calls a (CRcvd n) (CSent m) sched in
+  st a' = 0 /\ credit a' = credit a + 3 * n - m.
+Proof. exact p_c15_race_conserves. Qed.
+
+(* the schedule that loses the debit when the deposit is a separate load and store: here the debit lands in between *)
+Example c15_race_nonvacuous :
+  let '(a', pa, pb, na, nb) := race_calls (on_rcvd aa0 1200) (CRcvd 50) (CSent 3600) [false; true; true; false] in
+  credit a' = 150 /\ na = 2 /\ nb = 2.
+Proof. vm_compute. repeat split; reflexivity. Qed.
+
 Theorem c15_resume_progress : forall y i n,
   nth_error (pend y) i = Some (NAdd n) ->
   exists y', sstep y (LNotif i) = Some y' /\ In NWake (pend y').
@@ -127,3 +170,10 @@ Print Assumptions c15_ratio_interleaved.
 Print Assumptions c15_resume_progress.
 Print Assumptions c15_glue_shape.
 Print Assumptions c15_nonvacuous.
+Print Assumptions c15_segment_within_credit.
+Print Assumptions c15_segment_nonvacuous.
+Print Assumptions c15_race_finishes.
+Print Assumptions c15_call_alone.
+Print Assumptions c15_race_rcvd_sent_linearizable.
+Print Assumptions c15_race_conserves.
+Print Assumptions c15_race_nonvacuous.
